@@ -228,9 +228,9 @@ claim("C15", "model_checking", "TLA+ exact (128-bit) constant semantics evaluate
       "DESIGN.md section 4 (language kernel)")
 claim("C16", "exploration", "TLC enumeration of (type, context) skeletons with a typing model (WaGen.tla) + `wa build` of every skeleton + WebAssembly validation on V8",
       "WaGen.tla builds types structurally (nine base types under pointer, slice, array, map-value and map-key constructors: one level in quick, two in thorough = 5 724 skeletons), "
-      "decides which skeletons are well typed (comparability of map keys and == operands) and puts each in 27 contexts (zero-value and initialised declarations, globals, parameters, "
+      "decides which skeletons are well typed (comparability of map keys and == operands) and puts each in 29 contexts (zero-value and initialised declarations, globals, parameters, "
       "results, multiple results, fields, elements, map values, closures and nested closures, boxing and type assertion, dereference, method receivers, deferred-call arguments, range, "
-      "append, struct literals, assignment through pointers, ==, deferred and plain calls whose mixed-type results are discarded). Every skeleton is rendered, compiled with `wa build`, and the binary validated with V8. A compiler exit without a "
+      "append, struct literals, assignment through pointers, ==, deferred and plain calls whose mixed-type results are discarded, loops with an empty body). Every skeleton is rendered, compiled with `wa build`, and the binary validated with V8. A compiler exit without a "
       "source position, a hang or an invalid module is a violation; an ill-typed skeleton must be rejected with a position or still yield a valid module. The printed observation of "
       "the same skeletons is decided under C01.",
       "Role G: level exploration (the product is enumerated completely, the feature set is the skeleton grammar). A well-typed skeleton the checker rejects is reported as inconclusive "
